@@ -329,7 +329,7 @@ func targetSnap(d *DiskPlan) string {
 	if d == nil {
 		return ""
 	}
-	return snapString(snapshot(d.Target))
+	return snapStringFull(snapshot(d.Target)) // kinds, sizes, permission bits and contents
 }
 
 func dropJail(d *DiskPlan) {
@@ -396,18 +396,38 @@ func caseC10(c *Ctx) {
 	if s.op.FromRoot {
 		trees = s.forest
 	}
+	rplan := noReaderFault
+	rplan.WithLen = c.Chance(1, 4)
 	mk := func(d *DiskPlan) *Env {
-		e := &Env{Doc: s.doc, Reader: noReaderFault, Writer: noWriterFault, Cb: noCbFault, Disk: d}
+		e := &Env{Doc: s.doc, Reader: rplan, Writer: noWriterFault, Cb: noCbFault, Disk: d}
 		if s.op.FromRoot {
 			e.Tree = s.forest[0]
 		}
 		return e
+	}
+	if needsFS(s.op) && arm == "core" && c.Chance(1, 12) {
+		// the target directory is given as "/", with the process standing in the prepared
+		// directory: "/" is the root directory and nothing else (the jail refuses it, in both modes)
+		s.op.SlashTarget, simple.SlashTarget = true, true
+		c.Scenario["target_given_as_slash"] = true
+		c.st.Count("slash-target")
+		if old, err := os.Getwd(); err == nil {
+			defer os.Chdir(old)
+		}
+	}
+	stand := func(d *DiskPlan) {
+		if s.op.SlashTarget && d != nil {
+			if os.Chdir(d.Target) != nil {
+				os.Chdir(d.Jail)
+			}
+		}
 	}
 	if simple.Kind == "output" && !simple.FromRoot && c.Chance(1, 6) {
 		simple.NoIter = true // the other simple-mode path (slices instead of iterators)
 		c.st.Count("reference:simple/noiter")
 	}
 	d1 := s.prepareTarget(c, 1)
+	stand(d1)
 	ref := c.Direct(simple, mk(d1))
 	refSnap := targetSnap(d1)
 	dropJail(d1)
@@ -429,6 +449,7 @@ func caseC10(c *Ctx) {
 		s.op.NilCtx = true
 	}
 	d2 := s.prepareTarget(c, 2)
+	stand(d2)
 	env := mk(d2)
 	env.Reader = readerPlanFor(c)
 	got := c.Sim("main", s.op, env)
@@ -457,6 +478,7 @@ func caseC10(c *Ctx) {
 			return
 		}
 		d3 := s.prepareTarget(c, 3)
+		stand(d3)
 		env3 := mk(d3)
 		env3.Chooser = c.Chooser("docorder", stratFirst)
 		c.st.Count("document-order-schedule-runs")
